@@ -42,6 +42,41 @@ func (k c04bCase) cfg() string {
 }
 func (k c04bCase) key() string { return fmt.Sprintf("%q %s", k.src, k.cfg()) }
 
+// c04bParse: the event stream of the dependency parser (the contract the model is stated against).  For a raw token
+// event (`<!--`, `-->`, content of an unknown at-rule block) `Values()` is undefined; vals is set to one white-space token
+// iff the parser skipped a comment between the previous raw token event and this one, decided as css.go does it:
+// Parser.Offset() of the previous raw token != Parser.Offset() - len(data).
+func c04bParse(src string, inline bool) (evs []c04Event, perr bool) {
+	p := pcss.NewParser(parse.NewInputString(src), inline)
+	prevRawEnd := -1
+	for {
+		gt, tt, data := p.Next()
+		if gt == pcss.ErrorGrammar && !p.HasParseError() {
+			return evs, perr
+		}
+		if gt == pcss.ErrorGrammar {
+			perr = true
+		}
+		ev := c04Event{gt: gt, tt: tt, data: append([]byte{}, data...)}
+		rawEnd := -1
+		if gt == pcss.TokenGrammar {
+			rawEnd = p.Offset()
+			if prevRawEnd != -1 && prevRawEnd != rawEnd-len(data) {
+				ev.vals = []c04Tok{{pcss.WhitespaceToken, []byte(" ")}}
+			}
+		} else {
+			for _, v := range p.Values() {
+				ev.vals = append(ev.vals, c04Tok{v.TokenType, append([]byte{}, v.Data...)})
+			}
+		}
+		prevRawEnd = rawEnd
+		evs = append(evs, ev)
+		if len(evs) > 2000000 {
+			return evs, true
+		}
+	}
+}
+
 func c04bEvGroups(evs []c04Event) string {
 	gs := make([][][]byte, len(evs))
 	for i, e := range evs {
@@ -55,8 +90,6 @@ func c04bEvGroups(evs []c04Event) string {
 }
 
 // ---------- narrow triggers of the open known findings (decided on the parser tokens of the input) ----------
-
-var c04bFontSizeBreak = map[string]bool{"xx-small": true, "x-small": true, "small": true, "medium": true, "large": true, "x-large": true, "xx-large": true, "smaller": true, "larger": true, "inherit": true, "initial": true, "unset": true}
 
 // c04bDeclTriggers: clauses "declaration value" and "crash"
 func c04bDeclTriggers(prop string, vals []c04Tok, css2 bool, trig map[string]string) {
@@ -84,7 +117,7 @@ func c04bDeclTriggers(prop string, vals []c04Tok, css2 bool, trig map[string]str
 		sized := false // a size candidate (or a slash) was seen
 		for i := 0; i+1 < len(nz); i++ {
 			if sized && nz[i].tt == pcss.IdentToken && c04bFontSizeBreak[strings.ToLower(string(nz[i].data))] && (nz[i+1].tt == pcss.IdentToken || nz[i+1].tt == pcss.StringToken) {
-				trig["declaration value"] = "K-C04B-10" // fontFamilySizeWord
+				trig["declaration value"] = "K-C04B-14" // fontFamilySizeWord2
 			}
 			if sizeLike(nz[i]) || (nz[i].tt == pcss.DelimToken && string(nz[i].data) == "/") {
 				sized = true
@@ -92,6 +125,8 @@ func c04bDeclTriggers(prop string, vals []c04Tok, css2 bool, trig map[string]str
 		}
 	}
 }
+
+var c04bFontSizeBreak = map[string]bool{"xx-small": true, "x-small": true, "small": true, "medium": true, "large": true, "x-large": true, "xx-large": true, "smaller": true, "larger": true, "inherit": true, "initial": true, "unset": true}
 
 // c04bCommentGlue: a comment directly between two non-white-space tokens (decided on the lexer tokens of the source,
 // comments included) inside the block of an at-rule the dependency parser does not know (raw), or in a selector /
@@ -170,22 +205,6 @@ func c04bTriggers(evs []c04Event, css2 bool) map[string]string {
 	trig := map[string]string{}
 	for _, e := range evs {
 		switch e.gt {
-		case pcss.QualifiedRuleGrammar, pcss.BeginRulesetGrammar:
-			inAttr := false
-			for i, t := range e.vals {
-				if t.tt == pcss.LeftBracketToken {
-					inAttr = true
-				} else if t.tt == pcss.RightBracketToken {
-					inAttr = false
-				} else if inAttr && t.tt == pcss.IdentToken && i > 0 {
-					p := e.vals[i-1]
-					d := string(t.data)
-					identLike := p.tt == pcss.IdentToken || (p.tt == pcss.StringToken && len(p.data) > 2 && c04IsIdent(p.data[1:len(p.data)-1]) && !strings.Contains(string(p.data), "\\"))
-					if identLike && !(d == "i" || d == "I" || d == "s" || d == "S") {
-						trig["selector"] = "K-C04B-11" // attrIdentGlued
-					}
-				}
-			}
 		case pcss.DeclarationGrammar:
 			c04bDeclTriggers(string(e.data), e.vals, css2, trig)
 		case pcss.BeginAtRuleGrammar:
@@ -233,13 +252,10 @@ func c04bRun(c *Ctx, st *h.Stage, cases []c04bCase) error {
 	var lines []string
 	for _, k := range cases {
 		out, err, crash := c04Minify(k.src, k.inline, k.css2)
-		inEv, perr := c04Parse(k.src, k.inline)
+		inEv, perr := c04bParse(k.src, k.inline)
 		trig := c04bTriggers(inEv, k.css2)
-		if raw, prelude := c04bCommentGlue(k.src, k.inline); raw || prelude {
+		if _, prelude := c04bCommentGlue(k.src, k.inline); prelude {
 			id := "K-C04B-13" // preludeCommentGlue
-			if raw {
-				id = "K-C04B-12" // rawBlockCommentGlue
-			}
 			for _, cl := range []string{"raw token", "structure", "selector", "declaration value", "at-rule prelude", "at-rule name", "property name", "event kind"} {
 				trig[cl] = id
 			}
@@ -259,7 +275,7 @@ func c04bRun(c *Ctx, st *h.Stage, cases []c04bCase) error {
 			st.Tag("rejected")
 			continue
 		}
-		outEv, _ := c04Parse(out, k.inline)
+		outEv, _ := c04bParse(out, k.inline)
 		j := &c04bJudged{k: k, out: out, perr: perr, trig: trig}
 		// (b) independent oracle on lexer-level rule trees
 		ta, tb := c04bTree(k.src, k.inline), c04bTree(out, k.inline)
